@@ -1,6 +1,7 @@
 """Shared: compare specifications (SFS) produced by GASOL's front end with the sub-block they were
 derived from, under enumerated admissible schedules, with the Coq validators
 `spec_check` / `deps_complete` (Val/SpecCheck.v), and search distinguishing states."""
+import os
 import itertools
 import json
 import re
@@ -107,6 +108,7 @@ def linearizations(sfs, cap=24):
 def check_specs(cases, name, chunk=60):
     """cases: list of dict(sfs=..., block_items=[(d,v)]).  Returns per case:
     {"schedules": n, "spec_check": [bool...], "deps_complete": bool} or {"unsupported": reason}."""
+    name = "%s_%d" % (name, os.getpid())      # private file names: runs of the checks may overlap
     pipeline.ensure_built()
     ok, out = common.coq_make(["Val/SpecCheck.vo", "Val/Search.vo", "Val/Realizes.vo"])
     if not ok:
@@ -154,6 +156,7 @@ def check_specs(cases, name, chunk=60):
 
 def search_spec_witness(case, L, rng, name):
     """Concrete state on which the denotation of the spec under schedule L differs from the block."""
+    name = "%s_%d" % (name, os.getpid())      # private file names: runs of the checks may overlap
     t = sfs2coq.build_tables(case["sfs"])
     it = evmconv.Interner()
     b = evmconv.block_to_coq([x for x in case["block_items"] if x[0] not in evmconv.EVENTS], it)
